@@ -38,7 +38,7 @@ func loadFindings() ([]Finding, error) {
 	if err := json.Unmarshal(b, &ff); err != nil {
 		return nil, fmt.Errorf("known_findings.json: %v", err)
 	}
-	return ff.Findings, nil
+	return append(ff.Findings, extraFindings()...), nil // extraFindings: devfindings.go (w-c05), empty unless VERIF_FINDINGS_EXTRA is set
 }
 
 type propCfg struct {
